@@ -390,6 +390,8 @@ def run(ck: Checker) -> None:
     from .c11 import r_normalise
     ck.guard("R-NORMALISE", lambda: r_normalise(ck))
     ck.guard("R-UNION-FIRST", lambda: r_union_first(ck))
+    from . import state_rules as S
+    ck.guard("R-GATE", lambda: S.r_config_readonly(ck, "R-GATE", ("RUNTIME_TYPE_CHECK",)))
     from . import templates_rules as T13
     ck.guard("R-TYPES-CACHE", lambda: T13.r_types_cache(ck))  # the fields checked are read from the per-class table
     ck.require_count("R-GATE", 4)
